@@ -44,6 +44,27 @@ def var_jobs():
     return jobs
 
 
+def shared_jobs(first):
+    """two stages of one pipeline share a task and only the FIRST defines the name at stage level; then the task is run directly:
+    the second stage and the direct run see the next level, not the first stage's value"""
+    jobs = []
+    for sub in [s for k in range(1, 4) for s in itertools.combinations(["cfg", "set", "task"], k)]:
+        for order in ("chain", "parallel"):
+            vals = {lv: "%s-val" % lv for lv in sub}
+            task = {"command": ['echo "v={{.v}} st={{index . \".Stage.Name\" | default \"direct\"}}" >> "$PROJ/out"']}
+            if "task" in vals:
+                task["variables"] = {"v": vals["task"]}
+            s2 = {"task": "t", "name": "s2"}
+            if order == "chain":
+                s2["depends_on"] = ["s1"]
+            doc = {"tasks": {"t": task}, "pipelines": {"p": [{"task": "t", "name": "s1", "variables": {"v": "stage-val"}}, s2]}}
+            if "cfg" in vals:
+                doc["variables"] = {"v": vals["cfg"]}
+            argv = ["-c", "cfg.json", "--raw"] + (["--set", "v=" + vals["set"]] if "set" in vals else []) + ["p", "t"]
+            jobs.append({"id": first + len(jobs), "files": {"cfg.json": clilib.jcfg(doc)}, "argv": argv, "keep": ["out"], "kind": "shared", "vals": vals, "mode": order})
+    return jobs
+
+
 def builtin_jobs(first):
     doc = {"tasks": {"t": {"command": ['echo "R={{.Root}}" >> "$PROJ/out"; echo "T={{.TempDir}}" >> "$PROJ/out"; echo "A={{.Args}}" >> "$PROJ/out"; echo "L={{.ArgsList}}" >> "$PROJ/out"']}},
            "pipelines": {"p": [{"task": "t"}]}}
@@ -120,6 +141,7 @@ def run(ctx):
         jobs = ctx.replay_cases
     else:
         jobs = var_jobs()
+        jobs += shared_jobs(len(jobs))
         jobs += builtin_jobs(len(jobs))
         jobs += argv_jobs(ctx, len(jobs))
         jobs += undef_jobs(len(jobs))
@@ -146,6 +168,24 @@ def run(ctx):
             items.append("(%d%%N, vars_ok %s 1 %s)" % (k, V, "None" if val is None else "(Some %d)" % I(val)))
             if len(v) >= 2:
                 res.nontrivial_keys.add(json.dumps([v, j["mode"]], sort_keys=True))
+        elif j["kind"] == "shared":
+            I = Intern(10)
+            v = j["vals"]
+
+            def am2(lv, vv=None):
+                vv = vv or v
+                return "[(1, %d)]" % I(vv[lv]) if lv in vv else "[]"
+            seen = {}
+            for l in lines:
+                if l.startswith("v=") and " st=" in l:
+                    val, st = l[2:].split(" st=", 1)
+                    seen["direct" if st in ("<no value>", "") else st] = val
+            parts = []
+            for st in ("s1", "s2", "direct"):
+                V = "(mkVarL [(2, 1); (3, 1)] [] %s %s [(4, 1); (5, 1)] %s %s)" % (am2("cfg"), am2("set"), am2("task"), "[(1, %d)]" % I("stage-val") if st == "s1" else "[]")
+                parts.append("vars_ok %s 1 %s" % (V, "None" if st not in seen else "(Some %d)" % I(seen[st])))
+            items.append("(%d%%N, %s)" % (k, " && ".join(parts)))
+            res.nontrivial_keys.add(json.dumps([v, j["mode"], "shared"], sort_keys=True))
         elif j["kind"] == "builtins":
             d = dict(l.split("=", 1) for l in lines)
             ok = r["rc"] == 0 and set(d) == {"R", "T", "A", "L"} and d["R"].endswith("/proj") and d["T"] != "" and d["A"] == "" and d["L"] == "[]"
@@ -180,7 +220,8 @@ def run(ctx):
             res.mismatches.append({"what": "cases.v output lacks BAD", "detail": o[-800:]})
         bad.update(vlib.nums(pr.get("BAD", "")))
         res.traces_validated += cnt
-    whats = {"vars": "a template variable did not resolve to the value of the highest level defining it (stage > task > --set > project config > global config)",
+    whats = {"shared": "stages sharing a task: a stage-level variable of one stage was seen by another stage or by a direct run of the task (or the defining stage did not see it)",
+             "vars": "a template variable did not resolve to the value of the highest level defining it (stage > task > --set > project config > global config)",
              "builtins": "a built-in variable (Root, TempDir, Args, ArgsList) was undefined or wrong",
              "argv": "the words after the first `--` did not reach the tasks verbatim as $ARGS/.Args/.ArgsList, or a word after `--` was treated as a target",
              "undef": "a command referring to an undefined variable: the commands that ran / the task result are not 'everything before it, then failure'"}
